@@ -452,6 +452,12 @@ symbol_t* value, ArbitrationState* arbitrationState) {
         valueSet = true;
         break;
       case ENH_RES_RESETTED:
+        if (valueSet) {
+          more = true;
+          pos--;  // keep ENH_BYTE1 for later run
+          len = 0;  // abort outer loop
+          break;
+        }
         if (arbitrationState && *arbitrationState != as_none) {
           *arbitrationState = as_error;
           m_arbitrationMaster = SYN;
